@@ -44,6 +44,16 @@ var (
 	lenHTML     []string
 )
 
+var (
+	attrFormsOnce sync.Once
+	attrForms     []string
+)
+
+func attrFormsHTML() []string {
+	attrFormsOnce.Do(func() { attrForms = alpha.AttrFormsHTML() })
+	return attrForms
+}
+
 func lenFamilySQL() []string {
 	lenSQLOnce.Do(func() { lenSQL = append(alpha.LenSQL(), alpha.LenSQL2()...) })
 	return lenSQL
@@ -111,6 +121,8 @@ func htmlExtraPhases(eval func(w *fw.W, s, aux string), heavy bool) []fw.Phase {
 			Run: func(w *fw.W) { list(w, alpha.ByteSweepHTML()) }, Eval: eval},
 		{Name: "count-sweep", Space: "5 vectors preceded by k copies of each of 5 units for every k in 0..300, in 3 breakout forms", Share: 1,
 			Run: func(w *fw.W) { list(w, alpha.CountSweepHTML()) }, Eval: eval},
+		{Name: "attribute-forms", Space: "12 attribute names of every class x 8 values x every blank / NUL before and after the value inside 3 quotings; every ordered pair of (name, value) x (name, value) in one tag, in two tag forms", Share: 1,
+			Run: func(w *fw.W) { list(w, attrFormsHTML()) }, Eval: eval},
 		deltaHTMLPhase(eval),
 	}
 }
